@@ -473,7 +473,20 @@ func (p *PF) run(fn *ssa.Function, entry StateSet, visit func(fn *ssa.Function, 
 							if p.deepSeen == nil {
 								p.deepSeen = map[*ssa.Function]StateSet{}
 							}
-							if sc|p.deepSeen[callee] != p.deepSeen[callee] {
+							if spec := constBoolArgs(callee, &call.Call); spec != nil && len(activeParamFlags) < 4 {
+								// a shared implementation selected by a constant flag: visited as this call runs it (see step)
+								saved := activeParamFlags
+								merged := map[*ssa.Parameter]bool{}
+								for k, v := range saved {
+									merged[k] = v
+								}
+								for k, v := range spec {
+									merged[k] = v
+								}
+								activeParamFlags = merged
+								p.run(callee, sc, visit)
+								activeParamFlags = saved
+							} else if sc|p.deepSeen[callee] != p.deepSeen[callee] {
 								p.deepSeen[callee] |= sc
 								p.run(callee, p.deepSeen[callee], visit)
 							}
@@ -732,7 +745,7 @@ func (p *PF) nilExits(callee *ssa.Function, ridx int, isNil bool, entry StateSet
 				if !isNil {
 					continue
 				}
-			} else if isCtxErrAfterDone(rv) {
+			} else if isCtxErrAfterDone(rv) || derefBeforeReturn(rv, e.Ret) {
 				if isNil {
 					continue
 				}
@@ -776,7 +789,6 @@ func isCtxErrAfterDone(v ssa.Value) bool {
 	return false
 }
 
-
 // constBoolArgs: the boolean parameters of callee that this call binds to constants.
 func constBoolArgs(callee *ssa.Function, cc *ssa.CallCommon) map[*ssa.Parameter]bool {
 	var out map[*ssa.Parameter]bool
@@ -796,7 +808,6 @@ func constBoolArgs(callee *ssa.Function, cc *ssa.CallCommon) map[*ssa.Parameter]
 	}
 	return out
 }
-
 
 // constExits: the states in which callee can return with the integer result #ridx equal to k (eq) / different from k (!eq);
 // a result that is not a constant counts for both.
@@ -853,7 +864,6 @@ func (p *PF) constExits(callee *ssa.Function, ridx int, k constant.Value, eq boo
 	return out
 }
 
-
 // switchChain: block b tests the result of call right away: b is the call's own block with nothing but the comparison after
 // the call, or is reached from it through blocks that only compare and branch (the case tests of a switch over the result) -
 // so the typestate cannot have moved between the call and the test.
@@ -879,7 +889,6 @@ func switchChain(call *ssa.Call, b *ssa.BasicBlock) bool {
 	}
 	return true
 }
-
 
 // constExitsExcl: constExits, with the returns whose constant is one of excl left out (they were ruled out before this test).
 func (p *PF) constExitsExcl(callee *ssa.Function, ridx int, k constant.Value, eq bool, entry StateSet, excl []constant.Value) StateSet {
@@ -922,4 +931,117 @@ func (p *PF) constExitsExcl(callee *ssa.Function, ridx int, k constant.Value, eq
 		}
 	}
 	return out
+}
+
+// derefBeforeReturn: the pointer value v has been dereferenced (a field of *v addressed, or v used as the receiver of a method
+// that takes it by pointer and was entered) in a block that dominates the return: it is not nil when it is returned (the
+// function would have panicked). Also a freshly allocated object.
+func derefBeforeReturn(v ssa.Value, ret *ssa.Return) bool {
+	if _, isAlloc := v.(*ssa.Alloc); isAlloc {
+		return true
+	}
+	if _, isPtr := v.Type().Underlying().(*types.Pointer); !isPtr || v.Referrers() == nil {
+		return false
+	}
+	rb := ret.Block()
+	for _, ref := range *v.Referrers() {
+		switch x := ref.(type) {
+		case *ssa.FieldAddr:
+			if x.X != v {
+				continue
+			}
+			// the address alone does not dereference; a load or store through it does
+			if x.Referrers() == nil {
+				continue
+			}
+			for _, r2 := range *x.Referrers() {
+				in, ok := r2.(ssa.Instruction)
+				if !ok {
+					continue
+				}
+				switch r2.(type) {
+				case *ssa.UnOp, *ssa.Store:
+					if in.Block() == rb || in.Block().Dominates(rb) {
+						return true
+					}
+				}
+			}
+		case *ssa.Call:
+			// a method of the package called on v whose entry block reads through its receiver
+			if len(x.Call.Args) == 0 || x.Call.Args[0] != v || x.Call.IsInvoke() {
+				continue
+			}
+			if !(x.Block() == rb || x.Block().Dominates(rb)) {
+				continue
+			}
+			cal := staticCallee(&x.Call)
+			if cal == nil || cal.Blocks == nil || len(cal.Params) == 0 {
+				continue
+			}
+			for _, in := range cal.Blocks[0].Instrs {
+				ld, ok := in.(*ssa.UnOp)
+				if !ok || ld.Op != token.MUL {
+					continue
+				}
+				// a load in the entry block through the receiver: x.f, x.arr[i]
+				a := ld.X
+				for d := 0; d < 3; d++ {
+					switch y := a.(type) {
+					case *ssa.IndexAddr:
+						a = y.X
+						continue
+					case *ssa.FieldAddr:
+						if y.X == ssa.Value(cal.Params[0]) {
+							return true
+						}
+						a = y.X
+						continue
+					}
+					break
+				}
+			}
+		}
+	}
+	return false
+}
+
+// blocksReachableUnder: the blocks of f that can be reached from its entry when each `if` on one of the given boolean
+// parameters (or its negation) takes the branch the parameter's value selects.
+func blocksReachableUnder(f *ssa.Function, flags map[*ssa.Parameter]bool) map[*ssa.BasicBlock]bool {
+	f = origin(f)
+	live := map[*ssa.BasicBlock]bool{}
+	if len(f.Blocks) == 0 {
+		return live
+	}
+	work := []*ssa.BasicBlock{f.Blocks[0]}
+	for len(work) > 0 {
+		b := work[len(work)-1]
+		work = work[:len(work)-1]
+		if live[b] {
+			continue
+		}
+		live[b] = true
+		succs := b.Succs
+		if iff, ok := b.Instrs[len(b.Instrs)-1].(*ssa.If); ok && len(b.Succs) == 2 {
+			cond, neg := iff.Cond, false
+			for {
+				if u, isU := cond.(*ssa.UnOp); isU && u.Op == token.NOT {
+					cond, neg = u.X, !neg
+					continue
+				}
+				break
+			}
+			if p, isP := cond.(*ssa.Parameter); isP {
+				if v, known := flags[p]; known {
+					if v != neg {
+						succs = b.Succs[:1]
+					} else {
+						succs = b.Succs[1:]
+					}
+				}
+			}
+		}
+		work = append(work, succs...)
+	}
+	return live
 }
